@@ -324,6 +324,17 @@ def run_odd(rec, case):
                     (b'access-control-request-headers', raw)]
         elif odd == 'encoded-path':
             kw['path'] = '/engine.io/%2e%2e/x'
+        if srv == 'H':
+            # the same unusual requests as HTTP/1.1 bytes, where they can be
+            # expressed that way
+            if odd in ('lowercase-method', 'no-host', 'chunked-body'):
+                return
+            for k, v in kw.pop('scope_extra_headers', []):
+                headers.setdefault(k.decode('latin-1'), [])
+                headers[k.decode('latin-1')].append(v.decode('latin-1'))
+            so = kw.pop('scope_override', None) or {}
+            if 'query_string' in so:
+                kw['raw_query'] = so['query_string'].decode('latin-1')
         if srv == 'A' and 'scope_extra_headers' in kw:
             extra = kw.pop('scope_extra_headers')
             base = sim.scope(method, q, headers, None, body=body)
@@ -813,7 +824,8 @@ def plan(tier, seed):
                 for isrv in (0, 1):
                     if tier == 'thorough' or rng.random() < 0.35:
                         cases.append({'odd': [iodd, im, ist, isrv]})
-                if ODD[iodd] == 'client-gone-before-body':
+                if ODD[iodd] == 'client-gone-before-body' or \
+                        tier == 'thorough' or rng.random() < 0.35:
                     cases.append({'odd': [iodd, im, ist, 2]})
     for k in range(150000 if tier == 'thorough' else 600):
         cases.append({'seed': seed, 'i': k})
